@@ -122,7 +122,7 @@ def r2(ctx):
               "dispersion.update(previous mean, new mean, value, count) - in those roles, the new mean read after it is stored",
               got=(r1, render(du[0][2])), key="dispersion-args")
     db = ctx.fibody(name="update", self_adt=DISP, trait="")
-    names = [db.locals[i]["name"] for i in range(1, db.argc + 1)]
+    names = [db.param_name(i) for i in range(1, db.argc + 1)]
     ctx.check("Dispersion::update", names == ["self", "prev_mean", "new_mean", "new_value", "value_count"], "parameter roles", got=names, key="params")
 
 
